@@ -614,14 +614,15 @@ def check(run, prog, tier):
             if fn in PRINTF and len(n["args"]) > PRINTF[fn]:
                 fmt = strip(n["args"][PRINTF[fn]])
                 text = fmt.get("s") if fmt.get("k") == "Str" else None
-                if any((strip(a).get("t") or "") in ("double", "float") or (a.get("t") or "") in ("double", "float") for a in n["args"][PRINTF[fn] + 1:]):
+                if any((strip(a).get("t") or "").replace("const ", "").replace("volatile ", "") in ("double", "float", "long double") for a in n["args"][PRINTF[fn] + 1:]):
                     out.append((f.name, fn, text, n.get("l")))
             elif depth and fn in unit.funcs and unit.funcs[fn].static and fn not in (ss.name, sw.name):
                 out += real_formats(unit.funcs[fn], depth - 1)
         return out
     rs, rw = real_formats(ss), real_formats(sw)
     run.need(rs and rw, "conversions of doubles in svalue_save_size / save_svalue")
-    same = {(a, b_, c) for a, b_, c, l in rs} == {(a, b_, c) for a, b_, c, l in rw}
+    inl = lambda a: "<inline>" if a in (ss.name, sw.name) else a
+    same = {(inl(a), c) for a, b_, c, l in rs} == {(inl(a), c) for a, b_, c, l in rw}
     run.ob("C16-k", "real-size-vs-write", same, "both passes format reals through %s" % sorted({(a, c) for a, b_, c, l in rw}) if same else
            "the size pass formats reals with %s, the write pass with %s: the two can disagree on the length" % (sorted({(a, c) for a, b_, c, l in rs}), sorted({(a, c) for a, b_, c, l in rw})), sw.file, rw[0][3], "save_svalue",
            what="size pass and write pass print floats differently")
